@@ -48,11 +48,17 @@ class Result:
 class CoopRLock:
     """Re-entrant lock whose waiting is visible to the scheduler (drop-in for threading.RLock in library modules)."""
 
-    def __init__(self, sched=None):
-        self.sched = sched or Scheduler.current
+    def __init__(self, sched=None, reentrant=True):
+        self._sched = sched
+        self.reentrant = reentrant
         self.owner = None
         self.count = 0
-        self._real = threading.RLock()  # used when no scheduler run is active (plain code paths)
+        self._real = getattr(threading, "_verif_real_rlock", threading.RLock)()  # used when no scheduler run is active (plain code paths)
+
+    @property
+    def sched(self):
+        # resolved at use: locks the library creates at import / decoration time exist before any scheduler does
+        return self._sched or Scheduler.current
 
     def acquire(self, blocking=True, timeout=-1):
         s = self.sched
@@ -62,7 +68,7 @@ class CoopRLock:
         if tid is None:
             return self._real.acquire(blocking, timeout)
         while True:
-            if self.owner is None or self.owner == tid:
+            if self.owner is None or (self.owner == tid and self.reentrant):
                 self.owner = tid
                 self.count += 1
                 return True
@@ -83,6 +89,41 @@ class CoopRLock:
 
     def __exit__(self, *a):
         self.release()
+
+    def locked(self):
+        return self.owner is not None
+
+
+COOP_PROPS = ("C19", "C20")  # checks whose workers make every lock the library creates visible to the scheduler
+
+
+def patch_threading_for_library():
+    """
+    Must run before `spec_classes` is imported. threading.RLock / threading.Lock hand out cooperative locks when they are
+    called from library code (module level, decoration time, dataclass default factories, ...), so that a thread waiting
+    for *any* library lock - however the locking is organised - is seen by the scheduler as blocked (and a cycle of
+    waiting threads as a deadlock) instead of silently parking the thread that holds the baton. Outside scheduler
+    runs the cooperative lock delegates to a real one.
+    """
+    if getattr(threading, "_verif_patched", False):
+        return
+    real_rlock, real_lock = threading.RLock, threading.Lock
+
+    def from_library():
+        # the immediate caller only: a lock that threading itself creates inside an Event / Condition / Semaphore on the
+        # library's behalf has to stay a real one
+        f = sys._getframe(2)
+        return f is not None and str(f.f_globals.get("__name__", "")).startswith("spec_classes")
+
+    def RLock(*a, **k):
+        return CoopRLock() if from_library() else real_rlock(*a, **k)
+
+    def Lock(*a, **k):
+        return CoopRLock(reentrant=False) if from_library() else real_lock(*a, **k)
+
+    threading._verif_real_rlock, threading._verif_real_lock = real_rlock, real_lock
+    threading.RLock, threading.Lock = RLock, Lock
+    threading._verif_patched = True
 
 
 class Scheduler:
@@ -313,7 +354,7 @@ def install_coop_locks(sched):
     assert hasattr(sc, "SpecClassMetadata") and hasattr(mu, "_modules_copyable")
 
     factory = lambda: CoopRLock(sched)  # noqa: E731
-    real_rlock_type = type(threading.RLock())
+    real_rlock_type = type(getattr(threading, "_verif_real_rlock", threading.RLock)())
     sc.RLock = factory
     mu.RLock = factory
     replaced = 0
